@@ -11,6 +11,8 @@ for log in sys.argv[1:]:
         if m:
             cur = (m.group(1), int(m.group(2)))
             res.setdefault(cur, {})
+            for k in ('violation_lines', 'check_exit', 'check_violations'):
+                res[cur].pop(k, None)               # a later run of the same change replaces the earlier result
             continue
         if cur is None:
             continue
@@ -26,21 +28,26 @@ for log in sys.argv[1:]:
         m = re.match(r'check_exit=(\d+)', line)
         if m:
             res[cur]['check_exit'] = int(m.group(1))
-        if line.startswith('VIOLATION'):
+        if line.startswith('VIOLATION property=%s ' % cur[0]):
             res[cur].setdefault('violation_lines', []).append(line.strip()[:200])
 for (p, k), r in sorted(res.items()):
     src = r.get('src') or '/tmp/seed/%s_out/mut%d' % (p, k)
     confirmed = r.get('tests_rc') == 0 and r.get('demo_clean_rc') == 0 and r.get('demo_mutated_rc', 0) != 0
     sid = '%s-mut%d' % (p, k)
     dst = os.path.join(VERIF, 'seeded', sid)
+    if not os.path.isdir(src) and os.path.exists(os.path.join(dst, 'patch.diff')):
+        src = dst                                   # scratch copy already removed: keep what was collected
     if not confirmed or not os.path.isdir(src):
         print(sid, 'NOT CONFIRMED', r)
         continue
     os.makedirs(dst, exist_ok=True)
     for f in ('patch.diff', 'demo.py'):
-        shutil.copy(os.path.join(src, f), os.path.join(dst, f))
+        if src != dst:
+            shutil.copy(os.path.join(src, f), os.path.join(dst, f))
     try:
         meta0 = json.load(open(os.path.join(src, 'meta.json')))
+        if src == dst:
+            meta0 = {'summary': meta0.get('summary'), 'needs': meta0.get('needs'), 'ran': meta0.get('author_ran')}
     except Exception:
         meta0 = {}
     old = {}
